@@ -600,6 +600,8 @@ struct Expect {
     cluster: Option<Option<Ipv4Addr>>,
     confed_id: u32,
     longest_prefix: u8,
+    fams_from_group: bool,
+    hold_from_group: bool,
 }
 
 fn expectation(cfg_confed: &Option<Vec<u32>>, n: Option<&NeighGen>, g: Option<&GroupGen>, addr: &IpAddr) -> Expect {
@@ -736,6 +738,8 @@ fn expectation(cfg_confed: &Option<Vec<u32>>, n: Option<&NeighGen>, g: Option<&G
         cluster,
         confed_id: if cfg_confed.is_some() { CONFED_ID } else { 0 },
         longest_prefix,
+        fams_from_group: !own && g.is_some(),
+        hold_from_group: nc.hold.is_none() && gc.hold.is_some(),
     }
 }
 
@@ -868,6 +872,19 @@ fn diff(e: &Expect, o: &Observed) -> Vec<(String, String)> {
             }
         }
     }
+    // one root cause, one signature: differences that follow from another one are dropped
+    let has = |d: &Vec<(String, String)>, p: &str| d.iter().any(|(f, _)| f.starts_with(p));
+    if has(&d, "local-as/") {
+        // the wrong local AS is what goes into the OPEN, and (iBGP = same AS) decides the role
+        let confed_ibgp = has(&d, "local-as/ibgp-in-confederation");
+        d.retain(|(f, _)| !f.starts_with("open-as/") && !(confed_ibgp && (f.starts_with("role/") || f == "cluster-id")));
+    }
+    if has(&d, "role/") {
+        d.retain(|(f, _)| f != "cluster-id");
+    }
+    if has(&d, "addpath") && d.iter().any(|(f, _)| f == "addpath") {
+        d.retain(|(f, _)| f != "addpath-send-max");
+    }
     d
 }
 
@@ -889,6 +906,8 @@ struct Conn {
     open_mp: Vec<u32>,
     open_read: bool,
     driven: bool,
+    /// the peer group whose parameters the session was found to carry (dynamic neighbours)
+    group: Option<String>,
 }
 
 enum Adm {
@@ -928,6 +947,9 @@ struct World<'a> {
     aborted: bool,
     /// ended after a violation that leaves the daemon in a state outside the model
     tainted: bool,
+    /// no further configuration steps (only the wind-down) in this history
+    last_op_done: bool,
+    probe_tag: Option<&'static str>,
     trace: bool,
     index: u64,
 }
@@ -1049,6 +1071,8 @@ async fn build_world<'a>(cfg: &CfgGen, rep: &'a mut Report, trace: bool, index: 
         history: Vec::new(),
         aborted: false,
         tainted: false,
+        last_op_done: false,
+        probe_tag: None,
         trace,
         index,
     })
@@ -1065,6 +1089,8 @@ impl<'a> World<'a> {
     fn witness(&self, extra: Vec<(&str, Json)>) -> Json {
         let mut v = vec![
             ("loader", Json::s(self.loader_name())),
+            ("configuration_index", Json::Int(self.index as i128)),
+            ("replay", Json::s(format!("VERIF_SEED=<shard seed> VERIF_TIER=<tier> VERIF_PART=accept VERIF_ONLY={} VERIF_TRACE=1 <e2 test binary> event::verif::c16::run --exact --nocapture", self.index))),
             ("configuration", Json::s(self.cfg_text.clone())),
             ("history", Json::strs(self.history.iter().cloned())),
         ];
@@ -1176,7 +1202,7 @@ impl<'a> World<'a> {
                 // the statement's "or lies inside a dynamic prefix" read literally would admit it
                 return Adm::Unjudged("configured-neighbour-refusable-but-inside-dynamic-prefix".into());
             }
-            return Adm::Refuse(if n.admin_down { "admin-down".into() } else { format!("duplicate-{}-connection", role_name(role)) });
+            return Adm::Refuse(if n.admin_down { "admin-down".into() } else { "duplicate-direction".into() });
         }
         if !live.is_empty() {
             // an instantiated dynamic neighbour (or the connections of a deleted one)
@@ -1328,14 +1354,21 @@ impl<'a> World<'a> {
             }
             Adm::Refuse(why) => {
                 self.rep.count(&format!("admission:expect-refuse:{}", why));
+                if why == "duplicate-direction" {
+                    self.rep.count(&format!("admission:expect-refuse:duplicate-direction:{}", role_name(role)));
+                }
                 if why != "not-configured" || !self.groups.iter().all(|g| g.prefixes.is_empty()) {
                     self.rep.nontrivial(self.case_hash());
                 }
                 if got {
                     skip_setup = true;
                     let w = self.witness(vec![("address", Json::s(addr.to_string())), ("role", Json::s(role_name(role))), ("expected", Json::s(format!("refuse: {}", why)))]);
+                    let sig = match self.probe_tag {
+                        Some(t) => format!("C16/admission/expected-refuse/{}/{}", why, t),
+                        None => format!("C16/admission/expected-refuse/{}", why),
+                    };
                     self.rep.violation(
-                        &format!("C16/admission/expected-refuse/{}", why),
+                        &sig,
                         "a connection the statement does not admit became a session",
                         w,
                     );
@@ -1437,6 +1470,7 @@ impl<'a> World<'a> {
             open_mp: Vec::new(),
             open_read: false,
             driven: false,
+            group: None,
         });
         if skip_setup {
             // admission already violated; there is no configuration to compare with
@@ -1475,6 +1509,10 @@ impl<'a> World<'a> {
         let cands: Vec<Expect> = if let Some(n) = self.statics.get(&addr) {
             let g = n.group.as_ref().and_then(|name| self.groups.iter().find(|g| &g.name == name));
             vec![expectation(&self.confed, Some(n), g, &addr)]
+        } else if let Some(gname) = self.live(&addr).into_iter().filter(|i| *i != id && self.conns[*i].dynamic).find_map(|i| self.conns[i].group.clone()) {
+            // a further connection of an already instantiated dynamic neighbour: it is that neighbour
+            self.rep.count("setup:second-connection-of-dynamic-neighbour");
+            self.groups.iter().filter(|g| g.name == gname).map(|g| expectation(&self.confed, None, Some(g), &addr)).collect()
         } else {
             let mut seen = BTreeSet::new();
             self.containing(&addr)
@@ -1488,7 +1526,11 @@ impl<'a> World<'a> {
             return;
         }
         self.rep.eval();
-        let best = cands.iter().min_by_key(|e| diff(e, &obs).len()).unwrap().clone();
+        // which group's parameters does the session carry?  The one it differs least from; fields
+        // that identify a group (AS, families, hold time, role ...) weigh more than a single
+        // add-path difference, so that one wrong detail does not make another group look closer.
+        let distance = |e: &Expect| -> usize { diff(e, &obs).iter().map(|(f, _)| if f.starts_with("addpath") { 1 } else { 10 }).sum() };
+        let best = cands.iter().min_by_key(|e| distance(e)).unwrap().clone();
         let diffs = diff(&best, &obs);
         self.rep.count(&format!("setup:judged:{}", best.kind));
         self.rep.count(&format!("setup:role:{}", best.role.map(|r| format!("{:?}", r)).unwrap_or_else(|| "unjudged".into())));
@@ -1536,8 +1578,19 @@ impl<'a> World<'a> {
                 ("expected", Json::s(format!("{:x?}", best))),
                 ("observed", Json::s(format!("{:x?}", obs))),
             ]);
+            // the kind of neighbour / the loader are part of the identity only where the cause can depend on them
+            let from = |g: bool| if g { "from-group" } else { "own" };
+            let sig = if field.starts_with("local-as/") || field.starts_with("role/") || field.starts_with("open-as/") {
+                format!("C16/setup/{}", field)
+            } else if field == "hold-time" {
+                format!("C16/setup/{}/{}/{}", field, from(best.hold_from_group), tag)
+            } else if ["families", "addpath", "addpath-send-max", "graceful-restart", "llgr"].contains(&field.as_str()) {
+                format!("C16/setup/{}/{}/{}", field, from(best.fams_from_group), tag)
+            } else {
+                format!("C16/setup/{}/{}", field, tag)
+            };
             self.rep.violation(
-                &format!("C16/setup/{}/{}/{}", field, best.kind, tag),
+                &sig,
                 &format!("session parameter differs from the neighbour's / peer group's configuration: {}", detail),
                 w,
             );
@@ -1547,6 +1600,7 @@ impl<'a> World<'a> {
             self.rep.sample(w);
         }
         self.conns[id].peer_as = best.peer_as;
+        self.conns[id].group = best.group.clone();
         // ---- drive the OPEN exchange from the client side
         let drive = match drive {
             Drive::Establish if obs.open_hold < 30 => Drive::Silent,
@@ -1794,6 +1848,9 @@ impl<'a> World<'a> {
     async fn op_replace_race(&mut self, addr: IpAddr, role: Role) {
         let Some(n) = self.statics.get(&addr).cloned() else { return };
         self.rep.count("op:replace-while-connected");
+        // whatever this leaves behind (see the probe below) is not described by the model:
+        // the history ends with this step and the wind-down
+        self.last_op_done = true;
         let pair = match self.make_pair(addr, role).await {
             Ok(p) => p,
             Err(e) => {
@@ -1818,7 +1875,9 @@ impl<'a> World<'a> {
             self.refresh();
             if matches!(self.admission(&addr, role), Adm::Refuse(_)) {
                 self.rep.count("replace-while-connected:duplicate-probed");
+                self.probe_tag = Some("after-neighbour-replaced-while-connected");
                 self.op_connect(addr, role, Drive::Silent, None, true).await;
+                self.probe_tag = None;
             } else {
                 self.rep.count("replace-while-connected:probe-not-judgeable");
             }
@@ -1845,7 +1904,7 @@ async fn run_scenario(cfg: &CfgGen, rng: &mut Rng, rep: &mut Report, n_ops: usiz
     let mut first: Vec<IpAddr> = w.universe.clone();
     rng.shuffle(&mut first);
     let mut step = 0usize;
-    while step < n_ops && !w.aborted && !w.tainted {
+    while step < n_ops && !w.aborted && !w.tainted && !w.last_op_done {
         step += 1;
         // connections the daemon's own active-connect tasks may have produced are not part of the history
         while let Ok(s) = w.active_rx.try_recv() {
@@ -2263,14 +2322,14 @@ fn run() {
     let part = params.get("part").unwrap_or("all").to_string();
     if part == "all" || part == "grmirror" {
         let rt = tokio::runtime::Builder::new_current_thread().enable_all().build().expect("runtime");
-        let n = params.n(20_000, 400_000);
+        let n = params.n(40_000, 400_000);
         let mut r2 = rng.fork();
         // PeerSession::new_for_test creates (never polled) tokio timers
         let _enter = rt.enter();
         gr_mirror_part(&mut rep, &mut r2, n);
     }
     if part == "all" || part == "accept" {
-        let n = params.n(300, 20_000);
+        let n = params.n(1_500, 20_000);
         let only = params.get("only").and_then(|s| s.parse::<u64>().ok());
         let trace = params.flag("trace");
         for i in 0..n {
